@@ -195,3 +195,22 @@ func (m *Machine) StepNoBoundary() StepInfo {
 func IsHaltStep(log []Acc, pcBefore, pcAfter uint16) bool {
 	return len(log) == 1 && log[0].Kind == MR && log[0].Addr == pcBefore && log[0].Val == 0x76 && pcAfter == pcBefore
 }
+
+// Restore models a crash of the host with only durable state surviving: the
+// CPU value is thrown away and a new one is built from copies of States, the
+// memory image, the pending request and the device cursors. The simulator's
+// own bookkeeping (clock, event schedule, logs) is environment and survives.
+func (m *Machine) Restore() *Machine {
+	nb := m.Bus.Clone()
+	nb.Tick, nb.Hash, nb.WHash = m.Bus.Tick, m.Bus.Hash, m.Bus.WHash
+	nb.PortLog = append([]Acc(nil), m.Bus.PortLog...)
+	n := &Machine{Bus: nb, Cnt: &Counter{RETN: m.Cnt.RETN, RETI: m.Cnt.RETI}, Steps: m.Steps,
+		evs: m.evs, raised: append([]bool(nil), m.raised...), queue: append([]*z80.Interrupt(nil), m.queue...),
+		Raised: m.Raised, Accepted: m.Accepted, AccSP: m.AccSP, AccPC: m.AccPC, AccKinds: m.AccKinds,
+		Presented: m.Presented, Hook: m.Hook, NoPresent: m.NoPresent}
+	n.CPU = &z80.CPU{States: m.CPU.States, Memory: nb.Memory(), IO: nb.IO(), RETNHandler: n.Cnt, RETIHandler: n.Cnt,
+		Interrupt: CloneRequest(m.CPU.Interrupt), BreakPoints: m.CPU.BreakPoints, HALT: m.CPU.HALT}
+	nb.OnAccess = n.onAccess
+	n.Cnt.OnRet = n.onRet
+	return n
+}
